@@ -135,6 +135,9 @@ class ParseState(metaclass=ParseStateMeta):
 
         if len(self.values) != 1:
             raise ValueError('Could not parse rule')
+        # A lone operator, parenthesis or quoted string is not an expression
+        if self.tokens[0] in ('(', ')', 'and', 'or', 'not', 'string'):
+            raise ValueError('Could not parse rule')
         return self.values[0]
 
     @reducer('(', 'check', ')')
@@ -237,13 +240,19 @@ def _parse_list_rule(rule):
     # Outer list is joined by "or"; inner list by "and"
     or_list = []
     for inner_rule in rule:
+        # Handle bare strings
+        if isinstance(inner_rule, str):
+            inner_rule = [inner_rule] if inner_rule else []
+
+        # Anything but a list of strings is not a rule; fail closed
+        if (not isinstance(inner_rule, (list, tuple)) or
+                not all(isinstance(r, str) for r in inner_rule)):
+            LOG.error('Failed to understand rule %s', rule)
+            return _checks.FalseCheck()
+
         # Skip empty inner lists
         if not inner_rule:
             continue
-
-        # Handle bare strings
-        if isinstance(inner_rule, str):
-            inner_rule = [inner_rule]
 
         # Parse the inner rules into Check objects
         and_list = [_parse_check(r) for r in inner_rule]
@@ -348,4 +357,10 @@ def parse_rule(rule):
     # If the rule is a string, it's in the policy language
     if isinstance(rule, str):
         return _parse_text_rule(rule)
-    return _parse_list_rule(rule)
+    # A list of lists; a missing value has always meant the empty list
+    if rule is None or isinstance(rule, (list, tuple)):
+        return _parse_list_rule(rule)
+
+    # Neither a policy language string nor a list of lists; fail closed
+    LOG.error('Failed to understand rule %s', rule)
+    return _checks.FalseCheck()
